@@ -162,9 +162,17 @@ class Record:
         if not isinstance(other, Record):
             return False
 
+        # the identifier inside _pack() is only (name, 32-bit hash of the concatenated field names and types):
+        # different descriptors can share it, so compare the descriptors themselves as well
+        if self._descriptors() != other._descriptors():
+            return False
+
         return self._pack(excluded_fields=IGNORE_FIELDS_FOR_COMPARISON) == other._pack(
             excluded_fields=IGNORE_FIELDS_FOR_COMPARISON
         )
+
+    def _descriptors(self):
+        return (self._desc,)
 
     def _pack(self, unversioned=False, excluded_fields: list = None):
         values = []
@@ -302,6 +310,9 @@ class GroupedRecord(Record):
         if x:
             return getattr(x, attr)
         raise AttributeError(attr)
+
+    def _descriptors(self):
+        return tuple(self.descriptors)
 
     def _pack(self, unversioned=False, excluded_fields: list = None):
         return (
